@@ -31,8 +31,8 @@ CHECKS = {
  "C07": ("exploration", "stateful model-based property testing (proptest op sequences, hot-file round trips)",
          "History prefix, `checkpoint update -p`, later edits and repeated updates on a real repository; after every update analyze and run must be empty, after every later operation the re-flagged targets must equal the model (pending map computed by the harness, not read back). Hot-file round trips (delete / re-create / tail edit / commit / update) and files larger than 2 MiB are generated deliberately.",
          "trusts the history model and model::affected; edits always produce never-seen content", "4/C07"),
- "C11": ("exploration", "property-based testing against an argv/cwd/resolution model (proptest + helper start records)",
-         "Generated target layouts, command definitions of every kind, decoys, base/named/missing argmap files, --argmaps/--no-base-argmaps/--args with awkward argument strings; every started process must match the model's (exe, cwd, argv). Targets may share custom directories, use each other, and be run with -t X --deps.",
+ "C11": ("exploration", "property-based testing against an argv/cwd/resolution model (proptest): in-process over the plan the real handle_run builds (guarded plan-capture hook, 15000 cases per quick run) and end-to-end over helper start records",
+         "Generated target layouts, command definitions of every kind, decoys, base/named/missing argmap files, --argmaps/--no-base-argmaps/--args with awkward argument strings; every planned and every started process must match the model's (exe, cwd, argv). Targets may share custom directories, use each other, and be run with -t X --deps. A run over these valid inputs that ends without a result is a violation.",
          "--args values never start with '-'; no two files share a stem in one command directory", "4/C11"),
  "C12": ("exploration", "stateful model-based property testing (run histories against a ring model)",
          "Histories of up to 3M+3 runs for M in 1..5 with differing commands, targets, outputs and failures; after every run result show, log show and log show --id are compared with the model of the ids in use; directory count bounded. Invocations that abort before completing are interleaved (max_retained_runs >= 2) and must leave everything pointing at the last completed run.",
